@@ -154,3 +154,78 @@ def _dup_rec_cond() -> Callable[[], None]:
         ld.LiteralCollector._add_occurences_from_conditionals = orig
 
     return undo
+
+
+# ----------------------------------------------------------------------------------------------------------------
+# KF-minmax-empty-domain: the '#inf/#sup' result rule '__max(G,#inf) :- __min_dom(X); not __chain(G,X); lits.' needs the
+# domain's extreme element to exist; with an empty candidate domain the result atom is not derived at all.
+# The rule text is pinned by dozens of stored expectations in tests/test_minmax_aggregates.py.
+# ----------------------------------------------------------------------------------------------------------------
+@repair("minmax-empty-domain")
+def _minmax_empty_domain() -> Callable[[], None]:
+    import ngo.minmax_aggregates as mm
+    from clingo.ast import ConditionalLiteral
+    from ngo.utils.ast import LOC
+
+    orig = mm.MinMaxAggregator._create_aggregate_replacement
+
+    def patched(self, agg, elem, rest_vars, new_predicate, lits_with_vars):  # type: ignore[no-untyped-def]
+        ret = orig(self, agg, elem, rest_vars, new_predicate, lits_with_vars)
+        last = ret[-1]
+        body = list(last.body)
+        extreme, notchain = body[0], body[1]
+        ret[-1] = last.update(body=[ConditionalLiteral(LOC, notchain, [extreme])] + body[2:])
+        return ret
+
+    mm.MinMaxAggregator._create_aggregate_replacement = patched
+
+    def undo() -> None:
+        mm.MinMaxAggregator._create_aggregate_replacement = orig
+
+    return undo
+
+
+# ----------------------------------------------------------------------------------------------------------------
+# KF-domain-under-negation: DomainPredicates.add_domain_rules replaces every atom of a defining body by its domain
+# predicate, also under 'not' and inside the condition of a conditional literal, where a larger set makes the body
+# *harder* to satisfy: '__dom_p(V) :- d(V); not __dom_q(V).' under-approximates p.  Pinned by tests/test_dependency.py
+# and tests/test_symmetry.py.  The repair drops such literals from the domain rule (a sound over-approximation).
+# ----------------------------------------------------------------------------------------------------------------
+@repair("domain-under-negation")
+def _domain_under_negation() -> Callable[[], None]:
+    import ngo.dependency as dep
+    from clingo.ast import ASTType, Sign
+    from ngo.utils.ast import Predicate, collect_ast
+
+    orig = dep.DomainPredicates.add_domain_rules
+
+    def patched(self, domain_rules):  # type: ignore[no-untyped-def]
+        def dynamic(node) -> bool:  # type: ignore[no-untyped-def]
+            for atom in collect_ast(node, "SymbolicAtom"):
+                if atom.symbol.ast_type == ASTType.Function and not self.is_static(
+                    Predicate(atom.symbol.name, len(atom.symbol.arguments))
+                ):
+                    return True
+            return False
+
+        new = {}
+        for pred, rules in domain_rules.items():
+            new_rules = []
+            for head, condition in rules:
+                kept = []
+                for cond in condition:
+                    if cond.ast_type == ASTType.Literal and cond.sign == Sign.Negation and dynamic(cond):
+                        continue
+                    if cond.ast_type == ASTType.ConditionalLiteral and any(dynamic(c) for c in cond.condition):
+                        continue
+                    kept.append(cond)
+                new_rules.append((head, kept))
+            new[pred] = new_rules
+        return orig(self, new)
+
+    dep.DomainPredicates.add_domain_rules = patched
+
+    def undo() -> None:
+        dep.DomainPredicates.add_domain_rules = orig
+
+    return undo
